@@ -1254,6 +1254,18 @@ impl Engine {
                     });
                 }
                 let vc = world.view::<()>().contains(h);
+                {
+                    // every random-access entry point of a view must agree with contains()
+                    let mut vb = world.view::<()>();
+                    let g = vb.get(h).is_some();
+                    let gm = vb.get_mut(h).is_some();
+                    let many = vb.get_many_mut([h])[0].is_some();
+                    let mut vo = world.view::<Option<&C1>>();
+                    let (oc, ogm) = (vo.contains(h), vo.get_mut(h).is_some());
+                    if g != vc || gm != vc || many != vc || oc != vc || ogm != vc {
+                        out.flag(format!("C16/C08: view random access disagrees on {:?}: contains {vc}, get {g}, get_mut {gm}, get_many_mut {many}, Option view contains {oc} get_mut {ogm}", h));
+                    }
+                }
                 obs.push(vc as u64);
                 if vc != sh.ents.contains_key(&bits) {
                     out.flag(format!("C16/C08: view::<()>().contains({:?}) = {vc}, but live-and-flushed = {}", h, sh.ents.contains_key(&bits)));
